@@ -6,7 +6,7 @@ from ..gen21 import rand_payload, TP_CM, TP_DT
 PID = 'C06'
 PROP_MODULE = 'J1939.Props.C06'
 UNITS = ['Tp21.buffer_hash', 'Tp21.abort', 'Tp21.num_packets', 'Tp21.dt', 'Tp21.rts_size']
-ASSUMPTIONS = ["J1939-22 (FD): correspondence/oracle only until Dll22 theorems exist (known defect D4 there)",
+ASSUMPTIONS = ["J1939-22 (FD): theorems c06_22_* (segment order, exact-or-nothing at EOM status), lossy correspondence and the loss oracle",
                "frames that survive are 8-byte TP.DT frames of the running transfer (single loss / silence: no duplicates, no foreign frames on the key)"]
 
 
@@ -16,31 +16,57 @@ def correspondence(ctx):
     return corr22.merge(a, b)
 
 
-def shape_case(rng, shape, k, mode):
-    """shape = (bam, packets, window); k = index of the bus frame that is lost / from which a peer is silent"""
+def dry_frames(shape, dll):
+    """number of bus frames of the undisturbed transfer of this shape"""
+    key = (shape, dll)
+    if key not in _DRY:
+        bam, units, window = shape
+        sc = net21.Scenario(C.REPO, 1, 2, dll=dll, maxcmdt=[window, window])
+        unit = 7 if dll == 'j1939-21' else 60
+        sc.send(0, 0, 254 if bam else 208, 1 if bam else sc.addrs[1], 6, [0] * (units * unit))
+        sc.net.run(30_000_000, stop=lambda: sc.tables_empty() and sc.net.quiet())
+        _DRY[key] = len(sc.net.bus)
+    return _DRY[key]
+
+
+_DRY = {}
+
+
+def shape_case(rng, shape, k, mode, dll='j1939-21'):
+    """shape = (bam, packets/segments, window); k = index of the bus frame that is lost / from which a peer is silent"""
     bam, packets, window = shape
-    size = packets * 7 - rng.randrange(0, 7)
-    size = max(size, 9)
+    fd = dll != 'j1939-21'
+    unit = 60 if fd else 7
+    size = packets * unit - rng.randrange(0, unit)
+    size = max(size, 61 if fd else 9)
     silent = {}
-    sc = net21.Scenario(C.REPO, rng.getrandbits(32), 2, maxcmdt=[window, window], latency=lambda r, a, b, f: r.choice([1, 1000]),
+    sc = net21.Scenario(C.REPO, rng.getrandbits(32), 2, dll=dll, maxcmdt=[window, window], latency=lambda r, a, b, f: r.choice([1, 1000]),
                         loss=lambda n, src, dst, fr: (mode == 'lose' and n == k) or (mode.startswith('silent') and n >= k and (dst == silent['who'] or src == silent['who'])))
     silent['who'] = 0 if mode == 'silent0' else 1
     data = rand_payload(rng, size)
     t0 = sc.w.now
     sc.send(0, 0, 254 if bam else 208, 1 if bam else sc.addrs[1], 6, data)
-    sc.net.run(6_000_000, stop=lambda: sc.tables_empty() and sc.net.quiet())
+    sc.net.run(9_000_000 if fd else 6_000_000, stop=lambda: sc.tables_empty() and sc.net.quiet())
+    t_end = sc.w.now
     bad = []
     got = [d for d in sc.payload_deliveries() if d[0] == 1]
     pgn = 0xFE01 if bam else 0xD000
     if got not in ([], [(1, pgn, sc.addrs[0], data)]):
         bad.append(f"receiver got {str(got)[:120]} — neither nothing nor the exact {len(data)}-byte payload")
-    # give-up: both tables empty within 1.25 s (+ margin) of the last frame either side saw
-    last = max([t for (t, s, cid, d, fd) in sc.net.bus] + [t0])
+    # give-up: both tables empty within the longest applicable timeout of the last frame either side put on the bus
+    # (every deadline is armed by a reception or by an own transmission; 1.25 s = T2/T3, J1939-22 waits T5 = 3 s for the EOMA)
+    def is_abort(cid, d):
+        pf = (cid >> 16) & 0xFF
+        return bool(d) and ((pf == TP_CM and d[0] == 255) or (pf == 0x4D and d[0] & 15 == 15))
+    # (an abort is itself the result of a give-up: it does not re-arm anything)
+    last = max([t for (t, s, cid, d, fd_) in sc.net.bus if not is_abort(cid, d)] + [t0])
+    bound = (3_000_000 if fd else 1_250_000) + 10_000
     if not sc.tables_empty():
-        bad.append("a session is still open 6 s after the fault")
+        bad.append(f"a session is still open {(t_end - last) // 1000} ms after the last frame on the bus")
     else:
-        # when did the last record disappear?  re-run is expensive; use the abort frames / end time as proxy
-        aborts = [(t, s, d) for (t, s, cid, d, fd) in sc.net.bus if (cid >> 16) & 0xFF == TP_CM and d and d[0] == 255]
+        if t_end - last > bound:
+            bad.append(f"the last session record disappeared {(t_end - last) // 1000} ms after the last frame (other than an abort) on the bus (longest timeout {bound // 1000 - 10} ms)")
+        aborts = [(t, s, d) for (t, s, cid, d, fd_) in sc.net.bus if (cid >> 16) & 0xFF == TP_CM and d and d[0] == 255]
         for (t, s, d) in aborts:
             if d[1] != 3:
                 bad.append(f"connection abort with reason {d[1]} instead of 3 (timeout)")
@@ -51,16 +77,16 @@ def shape_case(rng, shape, k, mode):
     # follow-up on the same pair
     if not bad:
         sc.deliv.clear(); sc.accepted.clear()
-        data2 = rand_payload(rng, rng.choice([9, 30]))
+        data2 = rand_payload(rng, rng.choice([61, 130]) if fd else rng.choice([9, 30]))
         # the fault is over
         sc.net.loss = None
         if not sc.send(0, 0, 254 if bam else 208, 1 if bam else sc.addrs[1], 6, data2):
             bad.append("follow-up transfer on the same pair refused")
-        sc.net.run(5_000_000, stop=lambda: sc.tables_empty() and sc.net.quiet())
+        sc.net.run(8_000_000, stop=lambda: sc.tables_empty() and sc.net.quiet())
         r = net21.check_exactly_once(sc)
         if r:
             bad.append("follow-up transfer: " + r)
-    return bad, dict(bam=bam, packets=packets, window=window, k=k, mode=mode, size=size)
+    return bad, dict(dll=dll, bam=bam, packets=packets, window=window, k=k, mode=mode, size=size)
 
 
 def giveup_time_case(rng):
@@ -96,25 +122,27 @@ def oracle(ctx, full):
     big = full or not ctx.quick
     shapes = [(bam, p, w) for bam in (False, True) for p in (2, 3, 5, 12) for w in (1, 2, 3, 255)]
     cases = []
-    for sh in shapes:
-        nframes = sh[1] + (1 if sh[0] else 2 + (sh[1] + min(sh[2], sh[1]) - 1) // min(sh[2], sh[1]))
-        for k in range(nframes + 1):
-            for mode in ('lose', 'silent0', 'silent1'):
-                cases.append((sh, k, mode))
+    for dll in ('j1939-21', 'j1939-22'):
+        for sh in shapes:
+            if dll == 'j1939-22' and sh[1] == 12:
+                continue
+            for k in range(dry_frames(sh, dll) + 1):
+                for mode in ('lose', 'silent0', 'silent1'):
+                    cases.append((sh, k, mode, dll))
     if not big:
-        cases = rng.sample(cases, 70)
+        cases = rng.sample(cases, 90)
     else:
         cases = cases[ctx.shard::ctx.shards]          # the exhaustive enumeration is partitioned over the workers
     findings, evals, distinct, samples = [], 0, set(), []
-    for (sh, k, mode) in cases:
+    for (sh, k, mode, dll) in cases:
         sub = random.Random(rng.getrandbits(48))
-        bad, desc = shape_case(sub, sh, k, mode)
+        bad, desc = shape_case(sub, sh, k, mode, dll)
         evals += 1
         distinct.add(C.struct_hash(desc))
         if len(samples) < 2:
             samples.append(desc)
         if bad:
-            findings.append(dict(signature=dict(family='loss', dll='j1939-21', bam=sh[0]), what=bad[0], scenario=desc, all=bad[:5]))
+            findings.append(dict(signature=dict(family='loss', dll=dll, bam=sh[0]), what=bad[0], scenario=desc, all=bad[:5]))
             break
     if not findings:
         for _ in range(4 if not big else 40):
@@ -125,10 +153,11 @@ def oracle(ctx, full):
                 findings.append(dict(signature=dict(family='giveup', dll='j1939-21'), what=bad[0], scenario=desc, all=bad[:5]))
                 break
     return dict(findings=findings, evaluations=evals, distinct_nontrivial=len(distinct), samples=samples, exhaustive=bool(big),
-                rule="every J1939-21 transfer shape (BAM, RTS/CTS; 2, 3, 5, 12 packets; windows 1, 2, 3, all) x loss of the k-th bus frame / "
-                     "silence of either side from the k-th frame, for every k (thorough: all of them; quick: 70 sampled): receiver gets exact "
-                     "payload or nothing, aborts carry reason 3 and the PGN, tables empty, follow-up on the same pair delivered; plus give-up "
-                     "time <= 1.25 s and abort presence with a silent peer on either side")
+                rule="every J1939-21 transfer shape (BAM, RTS/CTS; 2, 3, 5, 12 packets; windows 1, 2, 3, all) and every J1939-22 shape (2, 3, 5 "
+                     "segments) x loss of the k-th bus frame / silence of either side from the k-th frame, for every k (thorough: all of them; "
+                     "quick: 90 sampled): receiver gets exact payload or nothing, J1939-21 aborts carry reason 3 and the PGN, both session tables "
+                     "empty no later than the longest timeout (1.25 s; J1939-22: 3 s) after the last frame other than an abort on the bus, follow-up on the same pair "
+                     "delivered; plus give-up time <= 1.25 s and abort presence with a silent peer on either side")
 
 
 def replay(ctx, path):
